@@ -108,6 +108,11 @@ class KindEngine:
                 self.checked_sites += 1
                 if tuple(kb[1:]) != tuple(kv):
                     self.bad(t, f"slot of kind {tuple(kb[1:])} receives a value of kind {kv}")
+            if kb is not None and kv is not None and idx.op in ("slice", "tuple") and len(kv) == len(kb) and \
+                    tuple(kv) != tuple(kb):
+                # a whole block of slots replaced by a value of another kind (h1.at[:2].set(rotated)): the result is
+                # neither the old nor the new kind slot by slot -- unknown here; its elements are typed where they are read
+                return None
             return kb
         if op in ("list", "tuple"):
             ks = [self.k(x) for x in t.args]
@@ -261,6 +266,28 @@ class KindEngine:
             return None
         if fn in ("zeros_like",) and pos:
             return self.k(pos[0])
+        if fn in ("tril", "triu") and pos:
+            ka = self.k(pos[0])
+            if ka is not None and len(ka) >= 2 and all(
+                    x.startswith("O") or x in ("SO",) for x in ka[-2:]):
+                # a positive witness: the triangle of a matrix over orbital axes is selected by the explicit orbital
+                # index, which no basis change commutes with (the Hermitian part (X + X^T)/2 does)
+                self.checked_sites += 1
+                self.bad(t, f"{fn} selects entries of an array of kinds {ka} by their explicit orbital indices: the "
+                            f"result changes with the orbital basis")
+            return None
+        if fn == "stack" and pos and strip_wrappers(pos[0]).op in ("list", "tuple"):
+            items = strip_wrappers(pos[0]).args
+            ks = [self.k(x) for x in items]
+            ax = kws.get("axis", pos[1] if len(pos) > 1 else const(0))
+            ax = strip_wrappers(ax)
+            if ks and all(x is not None for x in ks) and len(set(ks)) == 1 and ax.op == "const" and isinstance(ax.args[0], int):
+                lead = "S" if len(ks) == 2 else "?"
+                a_ = ax.args[0]
+                at = a_ if a_ >= 0 else len(ks[0]) + 1 + a_
+                if 0 <= at <= len(ks[0]):
+                    return tuple(ks[0][:at]) + (lead,) + tuple(ks[0][at:])
+            return None
         if fn == "block" and pos and pos[0].op == "list":
             rows = pos[0].args
             ks = [self.k(x) for r in rows if r.op == "list" for x in r.args]
@@ -286,8 +313,29 @@ class KindEngine:
             return None
         return None
 
+    def _two_norb(self, d: T) -> bool:
+        d = strip_wrappers(d)
+        return d.op == "binop" and d.args[0] == "*" and (
+            (is_const(d.args[1], 2) and self._is_norb(d.args[2])) or (is_const(d.args[2], 2) and self._is_norb(d.args[1])))
+
     def _reshape(self, t: T, kb: Kind, dims: List[T]) -> Kind:
         if kb is None:
+            return None
+        if len(dims) == 1 and strip_wrappers(dims[0]).op in ("tuple", "list"):
+            dims = list(strip_wrappers(dims[0]).args)
+        # GHF spin-orbital axis: (.., SO) -> (.., S, O) splits spin-major; (.., S, O) -> (.., SO) joins it again.  Joining
+        # (.., O, S) instead numbers the spin orbitals orbital-major (interleaved), which is not the [up | dn] block layout
+        # every other site uses: a positive witness.
+        if len(dims) == len(kb) + 1 and kb[-1] == "SO" and is_const(strip_wrappers(dims[-2]), 2) and self._is_norb(dims[-1]):
+            return tuple(kb[:-1]) + ("S", "O")
+        if len(dims) == len(kb) - 1 and len(kb) >= 2 and self._two_norb(dims[-1]):
+            if tuple(kb[-2:]) == ("S", "O"):
+                return tuple(kb[:-2]) + ("SO",)
+            if tuple(kb[-2:]) == ("O", "S"):
+                self.checked_sites += 1
+                self.bad(t, f"reshape joins axes of kinds {tuple(kb[-2:])} into the spin-orbital axis: the spin index runs "
+                            f"fastest (interleaved), the layout used everywhere else is [up block | dn block]")
+                return None
             return None
         # (G, F:b) -> (G, O:b, O:b)
         if len(kb) == 2 and kb[1].startswith("F") and len(dims) == 3 and is_const(dims[0], -1) and \
